@@ -43,11 +43,16 @@ Definition obs_matches (expected : option (list N * list N)) (o : hobs) : bool :
   | _, _ => false
   end.
 
+(* the server behaviours under which the command must succeed: a 200 reply carrying the JSON document
+   (whatever charset its Content-Type claims — a JSON text is UTF-8) *)
+Definition succeeds (beh : string) : bool :=
+  String.eqb beh "200-json" || String.eqb beh "200-json-charset-label".
+
 Definition corr (c : case) : bool :=
   match c with
   | CHeader i o => obs_matches (parse_header i) o
   | CRun i s beh _ _ ok op _ _ _ _ _ =>
-      Bool.eqb ok (String.eqb beh "200-json") &&
+      Bool.eqb ok (succeeds beh) &&
       (match op with Some o => opt_eqb String.eqb (Some o) (expected_operation i s) | None => true end)
   end.
 
@@ -70,7 +75,7 @@ Definition prop_header (c : case) : bool :=
 Definition prop_run (c : case) : bool :=
   match c with
   | CRun i s beh with_out pre ok op qm hok aok out_eq untouched =>
-      if String.eqb beh "200-json" then
+      if succeeds beh then
         ok && opt_eqb String.eqb op (expected_operation i s) && qm && hok && aok &&
         match out_eq with Some true => true | _ => false end
       else
